@@ -1,19 +1,21 @@
 import Tengo.Proofs.JsonAccept
 /-!
 C18, direction "scanner ⇒ grammar": whatever the control automaton accepts from `(st, σ)` is a
-completion of the grammar for that configuration (`G st σ`); at the start configuration this says the
-input is a JSON text.
+completion of the grammar for that configuration (`G st σ`) in which every value is nested no deeper
+than the stack leaves room for (`maxNestingDepth - |σ|`); at the start configuration this says the
+input is a JSON text nested at most `maxNestingDepth` deep.
 -/
 namespace Tengo.Proofs.JsonParse
 open Tengo.Model.Json Tengo.Proofs.JsonScan Tengo.Proofs.JsonGrammar Tengo.Proofs.JsonAccept
 
-/-- What may follow a finished value when the parse stack is `σ`, up to the end of the input. -/
+/-- What may follow a finished value when the parse stack is `σ`, up to the end of the input. A value
+that comes with `k` entries on the stack is nested at most `maxNestingDepth - k` deep. -/
 inductive After (pf : Bytes → UInt64) : List PS → Bytes → Prop where
   | top {w} : WS w → After pf [] w
   | arrClose {σ w r} : WS w → After pf σ r → After pf (.arr :: σ) (w ++ 0x5D :: r)
-  | arrNext {σ w w' t v r} : WS w → WS w' → Val pf t v → After pf (.arr :: σ) r →
+  | arrNext {σ w w' t v r} : WS w → WS w' → ValD pf (maxNestingDepth - (σ.length + 1)) t v → After pf (.arr :: σ) r →
       After pf (.arr :: σ) (w ++ 0x2C :: (w' ++ (t ++ r)))
-  | keyColon {σ w w' t v r} : WS w → WS w' → Val pf t v → After pf (.objVal :: σ) r →
+  | keyColon {σ w w' t v r} : WS w → WS w' → ValD pf (maxNestingDepth - (σ.length + 1)) t v → After pf (.objVal :: σ) r →
       After pf (.objKey :: σ) (w ++ 0x3A :: (w' ++ (t ++ r)))
   | objClose {σ w r} : WS w → After pf σ r → After pf (.objVal :: σ) (w ++ 0x7D :: r)
   | objNext {σ w w' k r} : WS w → WS w' → StrBody k → After pf (.objKey :: σ) r →
@@ -36,9 +38,10 @@ theorem after_space {pf : Bytes → UInt64} {σ : List PS} {r : Bytes} (h : Afte
   | objClose hw h => exact .objClose (w := c :: _) (ws_cons hc hw) h
   | objNext hw hw' hk h => exact .objNext (w := c :: _) (ws_cons hc hw) hw' hk h
 
-/-- Completion of a value start: white space, a value, then what may follow. -/
+/-- Completion of a value start: white space, a value (nested no deeper than the stack leaves room
+for), then what may follow. -/
 def GVal (pf : Bytes → UInt64) (σ : List PS) (w : Bytes) : Prop :=
-  ∃ ws t v r, w = ws ++ (t ++ r) ∧ WS ws ∧ Val pf t v ∧ After pf σ r
+  ∃ ws t v r, w = ws ++ (t ++ r) ∧ WS ws ∧ ValD pf (maxNestingDepth - σ.length) t v ∧ After pf σ r
 
 /-- Completion of a key start. -/
 def GKey (pf : Bytes → UInt64) (σ : List PS) (w : Bytes) : Prop :=
@@ -104,12 +107,14 @@ def G (pf : Bytes → UInt64) : Step → List PS → Bytes → Prop
 /-- From "what follows" back to the grammar's `Elems` / `Members`: the text after a first element
 (member) up to the matching close is the rest of an element (member) list. -/
 theorem peel {pf : Bytes → UInt64} {σ0 : List PS} {r : Bytes} (h : After pf σ0 r) :
-    (∀ σ, σ0 = .arr :: σ → ∀ w1 t v, WS w1 → Val pf t v →
-      ∃ e xs R, w1 ++ (t ++ r) = e ++ 0x5D :: R ∧ Elems pf e xs ∧ After pf σ R) ∧
+    (∀ σ, σ0 = .arr :: σ → ∀ w1 t v, WS w1 → ValD pf (maxNestingDepth - (σ.length + 1)) t v →
+      ∃ e xs R, w1 ++ (t ++ r) = e ++ 0x5D :: R ∧ ElemsD pf (maxNestingDepth - (σ.length + 1)) e xs ∧ After pf σ R) ∧
     (∀ σ, σ0 = .objKey :: σ → ∀ w1 k, WS w1 → StrBody k →
-      ∃ m es R, w1 ++ (quote k ++ r) = m ++ 0x7D :: R ∧ Members pf m es ∧ After pf σ R) ∧
-    (∀ σ, σ0 = .objVal :: σ → ∀ w1 k w2 w3 t v, WS w1 → StrBody k → WS w2 → WS w3 → Val pf t v →
-      ∃ m es R, w1 ++ (quote k ++ (w2 ++ 0x3A :: (w3 ++ (t ++ r)))) = m ++ 0x7D :: R ∧ Members pf m es ∧ After pf σ R) := by
+      ∃ m es R, w1 ++ (quote k ++ r) = m ++ 0x7D :: R ∧ MembersD pf (maxNestingDepth - (σ.length + 1)) m es ∧ After pf σ R) ∧
+    (∀ σ, σ0 = .objVal :: σ → ∀ w1 k w2 w3 t v, WS w1 → StrBody k → WS w2 → WS w3 →
+      ValD pf (maxNestingDepth - (σ.length + 1)) t v →
+      ∃ m es R, w1 ++ (quote k ++ (w2 ++ 0x3A :: (w3 ++ (t ++ r)))) = m ++ 0x7D :: R ∧
+        MembersD pf (maxNestingDepth - (σ.length + 1)) m es ∧ After pf σ R) := by
   induction h with
   | top _ => exact ⟨(fun σ e => by cases e), (fun σ e => by cases e), (fun σ e => by cases e)⟩
   | @arrClose σ1 w r' hw h _ =>
@@ -198,8 +203,17 @@ theorem back_endValue {pf : Bytes → UInt64} (σ : List PS) (c : UInt8) (w' : B
             exact .arrClose (w := []) ws_nil (G_popTo rest _ w' h')
           · simp [stateEndValue, hc, e, e2, failAt] at hne
 
-theorem gval_of_val {pf : Bytes → UInt64} {σ : List PS} {t : Bytes} {v : J} {r : Bytes} (hv : Val pf t v)
-    (hr : After pf σ r) : GVal pf σ (t ++ r) := ⟨[], t, v, r, rfl, ws_nil, hv, hr⟩
+theorem gval_of_val {pf : Bytes → UInt64} {σ : List PS} {t : Bytes} {v : J} {r : Bytes}
+    (hv : ValD pf (maxNestingDepth - σ.length) t v) (hr : After pf σ r) : GVal pf σ (t ++ r) :=
+  ⟨[], t, v, r, rfl, ws_nil, hv, hr⟩
+
+/-- A push that did not fail found room on the stack. -/
+theorem pushTo_room {st : Step} {p : PS} {σ : List PS} {op : Op} (hne : (pushTo st p σ op).step ≠ .error) :
+    σ.length < maxNestingDepth := by
+  apply Decidable.byContradiction
+  intro hge
+  rw [pushTo_deep _ _ _ _ (by omega)] at hne
+  exact hne rfl
 
 theorem back_beginValue {pf : Bytes → UInt64} (σ : List PS) (c : UInt8) (w' : Bytes)
     (hne : (stateBeginValue σ c).step ≠ .error)
@@ -212,25 +226,41 @@ theorem back_beginValue {pf : Bytes → UInt64} (σ : List PS) (c : UInt8) (w' :
   simp only [hc, Bool.false_eq_true, if_false] at hne h
   by_cases e1 : c = 0x7B
   · subst e1
-    simp only [if_true, goTo, G] at h
+    simp only [if_true] at hne h
+    have hlt := pushTo_room hne
+    have hbud : maxNestingDepth - σ.length = (maxNestingDepth - (σ.length + 1)) + 1 := by omega
+    rw [pushTo_ok _ _ _ _ hlt] at h
+    simp only [goTo, G] at h
     rcases h with ⟨p, σ', ws, r, hσ, rfl, hws, hr⟩ | ⟨ws, k, r, rfl, hws, hk, hr⟩
     · cases hσ
-      have := gval_of_val (Val.objEmpty (pf := pf) hws) hr
+      have hv : ValD pf (maxNestingDepth - σ.length) (0x7B :: ws ++ [0x7D]) (.obj .nil) := by
+        rw [hbud]; exact .objEmpty hws
+      have := gval_of_val hv hr
       simpa using this
     · obtain ⟨m, es, R, he, hm, hR⟩ := (peel hr).2.1 σ rfl ws k hws hk
-      have := gval_of_val (Val.obj hm) hR
+      have hv : ValD pf (maxNestingDepth - σ.length) (0x7B :: m ++ [0x7D]) (.obj (insertAll es .nil)) := by
+        rw [hbud]; exact .obj hm
+      have := gval_of_val hv hR
       rw [he]
       simpa using this
   simp only [e1, if_false] at hne h
   by_cases e2 : c = 0x5B
   · subst e2
-    simp only [if_true, goTo, G] at h
+    simp only [if_true] at hne h
+    have hlt := pushTo_room hne
+    have hbud : maxNestingDepth - σ.length = (maxNestingDepth - (σ.length + 1)) + 1 := by omega
+    rw [pushTo_ok _ _ _ _ hlt] at h
+    simp only [goTo, G] at h
     rcases h with ⟨σ', ws, r, hσ, rfl, hws, hr⟩ | ⟨ws, t, v, r, rfl, hws, hv, hr⟩
     · cases hσ
-      have := gval_of_val (Val.arrEmpty (pf := pf) hws) hr
+      have hv : ValD pf (maxNestingDepth - σ.length) (0x5B :: ws ++ [0x5D]) (.arr .nil) := by
+        rw [hbud]; exact .arrEmpty hws
+      have := gval_of_val hv hr
       simpa using this
     · obtain ⟨e, xs, R, he, hel, hR⟩ := (peel hr).1 σ rfl ws t v hws hv
-      have := gval_of_val (Val.arr hel) hR
+      have hv' : ValD pf (maxNestingDepth - σ.length) (0x5B :: e ++ [0x5D]) (.arr xs) := by
+        rw [hbud]; exact .arr hel
+      have := gval_of_val hv' hR
       rw [he]
       simpa using this
   simp only [e2, if_false] at hne h
@@ -238,43 +268,43 @@ theorem back_beginValue {pf : Bytes → UInt64} (σ : List PS) (c : UInt8) (w' :
   · subst e3
     simp only [if_true, goTo, G, GStr, List.nil_append] at h
     obtain ⟨k, r, rfl, hk, hr⟩ := h
-    have := gval_of_val (Val.str (pf := pf) hk) hr
+    have := gval_of_val (ValD.str (pf := pf) hk) hr
     simpa [quote] using this
   simp only [e3, if_false] at hne h
   by_cases e4 : c = 0x2D
   · subst e4
     simp only [if_true, goTo, G, GNum] at h
     obtain ⟨t, r, rfl, ht, hr⟩ := h
-    exact gval_of_val (Val.num (pf := pf) (.neg ht)) hr
+    exact gval_of_val (ValD.num (pf := pf) (.neg ht)) hr
   simp only [e4, if_false] at hne h
   by_cases e5 : c = 0x30
   · subst e5
     simp only [if_true, goTo, G, GNum] at h
     obtain ⟨t, r, rfl, ht, hr⟩ := h
-    exact gval_of_val (Val.num (pf := pf) (.zero ht)) hr
+    exact gval_of_val (ValD.num (pf := pf) (.zero ht)) hr
   simp only [e5, if_false] at hne h
   by_cases e6 : c = 0x74
   · subst e6
     simp only [if_true, goTo, G, GLit] at h
     obtain ⟨r, rfl, hr⟩ := h
-    exact gval_of_val (Val.true (pf := pf)) hr
+    exact gval_of_val (ValD.true (pf := pf)) hr
   simp only [e6, if_false] at hne h
   by_cases e7 : c = 0x66
   · subst e7
     simp only [if_true, goTo, G, GLit] at h
     obtain ⟨r, rfl, hr⟩ := h
-    exact gval_of_val (Val.false (pf := pf)) hr
+    exact gval_of_val (ValD.false (pf := pf)) hr
   simp only [e7, if_false] at hne h
   by_cases e8 : c = 0x6E
   · subst e8
     simp only [if_true, goTo, G, GLit] at h
     obtain ⟨r, rfl, hr⟩ := h
-    exact gval_of_val (Val.null (pf := pf)) hr
+    exact gval_of_val (ValD.null (pf := pf)) hr
   simp only [e8, if_false] at hne h
   by_cases e9 : isDigit19 c = true
   · simp only [e9, if_true, goTo, G, GNum] at h
     obtain ⟨t, r, rfl, ht, hr⟩ := h
-    exact gval_of_val (Val.num (pf := pf) (.int e9 ht)) hr
+    exact gval_of_val (ValD.num (pf := pf) (.int e9 ht)) hr
   · simp [e9, failAt] at hne
 
 /-- Number states. -/
@@ -610,8 +640,10 @@ theorem acc_G (pf : Bytes → UInt64) : ∀ (w : Bytes) (st : Step) (σ : List P
       rw [heq] at hG; exact ⟨w', rfl, hG⟩
     case error => exact absurd trivial hne
 
-/-- **Scanner ⇒ grammar.** What `checkValid`'s automaton accepts is a JSON text. -/
-theorem accB_json (pf : Bytes → UInt64) (b : Bytes) (h : accB .beginValue [] b = true) : ∃ v, Json pf b v := by
+/-- **Scanner ⇒ grammar.** What `checkValid`'s automaton accepts is a JSON text nested at most
+`maxNestingDepth` deep. -/
+theorem accB_json (pf : Bytes → UInt64) (b : Bytes) (h : accB .beginValue [] b = true) :
+    ∃ v, JsonD pf maxNestingDepth b v := by
   obtain ⟨ws, t, v, r, rfl, hws, hv, hr⟩ := acc_G pf b .beginValue [] h
   cases hr with
   | top hw => exact ⟨v, ws, t, _, by simp, hws, hv, hw⟩
